@@ -36,22 +36,23 @@ TOP = (NEG, POS)
 
 
 class St:
-    __slots__ = ('buf', 'len', 'off', 'ptr', 'int', 'acc')
+    __slots__ = ('buf', 'len', 'off', 'ptr', 'int', 'acc', 'rel')
 
-    def __init__(self, buf=None, len_=None, off=None, ptr=None, int_=None, acc=frozenset()):
+    def __init__(self, buf=None, len_=None, off=None, ptr=None, int_=None, acc=frozenset(), rel=None):
         self.buf = buf or {}
         self.len = len_ or {}
         self.off = off or {}
         self.ptr = ptr or {}
         self.int = int_ or {}
         self.acc = acc
+        self.rel = rel or {}      # p -> (q, lo, hi): p == q + k with k in [lo, hi]
 
     def copy(self):
-        return St(dict(self.buf), dict(self.len), dict(self.off), dict(self.ptr), dict(self.int), self.acc)
+        return St(dict(self.buf), dict(self.len), dict(self.off), dict(self.ptr), dict(self.int), self.acc, dict(self.rel))
 
     def __eq__(self, o):
         return (self.buf == o.buf and self.len == o.len and self.off == o.off and self.ptr == o.ptr
-                and self.int == o.int and self.acc == o.acc)
+                and self.int == o.int and self.acc == o.acc and self.rel == o.rel)
 
     def __ne__(self, o):
         return not self.__eq__(o)
@@ -76,8 +77,12 @@ def join(a, b):
         v = min(a.len[k], b.len[k])
         if v > 0:
             ln[k] = v
+    rel = {}
+    for k in set(a.rel) & set(b.rel):
+        if a.rel[k][0] == b.rel[k][0]:
+            rel[k] = (a.rel[k][0], min(a.rel[k][1], b.rel[k][1]), max(a.rel[k][2], b.rel[k][2]))
     return St(_join_map(a.buf, b.buf), ln, _join_map(a.off, b.off), _join_map(a.ptr, b.ptr),
-              _join_map(a.int, b.int), a.acc & b.acc)
+              _join_map(a.int, b.int), a.acc & b.acc, rel)
 
 
 class Site:
@@ -103,17 +108,40 @@ class Analyzer:
         self.cfg = fn.cfg()
         self.sites = {}
         self.pbuf_rec = _parse_buffer_record(u)
+        self.field_alias = {}
         self.arrays = {}              # decl id -> element count for local arrays
         for d in fn.locals():
             t = u.ty(d['ty'])
             if t['c'] == 'array' and 'count' in t:
                 self.arrays[d['d']] = (d['n'], t['count'])
+        # locals that hold B->content / B->length for the whole function (single definition from the field; only valid
+        # for fields the function itself never stores to)
+        self.field_alias = {}
+        stored_fields = {strip_casts(a['l'])['f'] for a in fn.nodes() if a.get('k') == 'bin' and a['op'] in ASSIGN_OPS
+                         and strip_casts(a['l']).get('k') == 'mem'}
+        ndefs = {}
+        for a in fn.nodes():
+            if a.get('k') == 'bin' and a['op'] in ASSIGN_OPS and strip_casts(a['l']).get('k') == 'ref':
+                ndefs[strip_casts(a['l'])['d']] = ndefs.get(strip_casts(a['l'])['d'], 0) + 1
+            if a.get('k') == 'un' and a['op'] in ('post++', 'post--', 'pre++', 'pre--') and strip_casts(a['e']).get('k') == 'ref':
+                ndefs[strip_casts(a['e'])['d']] = ndefs.get(strip_casts(a['e'])['d'], 0) + 1
+        for d in fn.locals():
+            if 'init' in d and ndefs.get(d['d'], 0) == 0:
+                i = strip_casts(d['init'])
+                if i.get('k') == 'mem' and i['f'] in ('content', 'length') and i['f'] not in stored_fields:
+                    self.field_alias[d['d']] = (None, i['f'], i)
         ths = set()
         for n in fn.nodes():
             v = const_val(n)
             if v is not None and -4096 < v < 4096:
                 ths.update((v - 1, v, v + 1))
         self.thresholds = sorted(ths | {0})
+        for d, (_b, f, i) in list(self.field_alias.items()):
+            b = self.buf_key(i['b'])
+            if b is None:
+                del self.field_alias[d]
+            else:
+                self.field_alias[d] = (b, f)
 
     # ---- recognisers ---------------------------------------------------------------------------
     def is_pbuf_type(self, tid):
@@ -134,10 +162,12 @@ class Analyzer:
         return None
 
     def buf_field(self, e, field):
-        """B if e is B->field / B.field on a parse buffer."""
+        """B if e is B->field / B.field on a parse buffer (or a local that was initialised from it and never changes)."""
         e = strip_casts(e)
         if e.get('k') == 'mem' and e['f'] == field:
             return self.buf_key(e['b'])
+        if e.get('k') == 'ref' and e.get('d') in self.field_alias and self.field_alias[e['d']][1] == field:
+            return self.field_alias[e['d']][0]
         return None
 
     def ptr_norm(self, e):
@@ -166,6 +196,8 @@ class Analyzer:
                 if bl and bl == br:
                     return ('cur', bl, 0)
             return None
+        if k == 'ref' and e.get('d') in self.field_alias and self.field_alias[e['d']][1] == 'content':
+            return ('content', self.field_alias[e['d']][0], 0)
         if k == 'ref':
             t = self.u.ty(e.get('ty0', e['ty']))
             if t['c'] == 'ptr':
@@ -179,6 +211,17 @@ class Analyzer:
         if k == 'un' and e['op'] in ('post++', 'post--'):
             return self.ptr_norm(e['e'])
         return None
+
+    # ---- relation p = q + k between raw cursors (k an interval) -------------------------------------------------
+    def rel_of(self, pn, st):
+        """For a normalised pointer (ptr, p, c): (root q, lo, hi) with the expression equal to q + [lo, hi]."""
+        kind, key, c = pn
+        if kind != 'ptr':
+            return None
+        r = st.rel.get(key)
+        if r is None:
+            return (key, c, c)
+        return (r[0], r[1] + c if r[1] > NEG else NEG, r[2] + c if r[2] < POS else POS)
 
     # ---- interval evaluation of integer expressions -------------------------------------------------
     def ieval(self, e, st):
@@ -229,6 +272,11 @@ class Analyzer:
             iv = st.buf.get(key, TOP)
         elif kind == 'ptr':
             iv = st.ptr.get(key)
+            r = st.rel.get(key)
+            if r is not None and r[0] in st.ptr and r[2] < POS:
+                base = st.ptr[r[0]]
+                via = (base[0] - r[2] if base[0] > NEG else NEG, POS)
+                iv = via if iv is None else (max(iv[0], via[0]), iv[1])
             if iv is None:
                 return None
         else:
@@ -348,6 +396,13 @@ class Analyzer:
         st.ptr.pop(name, None)
         self.kill_term(st, 'ptr', name)
         pn = self.ptr_norm(rhs)
+        st.rel.pop(name, None)
+        for k in [k for k, v in st.rel.items() if v[0] == name]:
+            del st.rel[k]
+        if pn is not None and pn[0] == 'ptr' and pn[1] != name:
+            r = self.rel_of(pn, st)
+            if r is not None and r[0] != name:
+                st.rel[name] = r
         if pn is None:
             return
         av = self.avail_of(pn, st)
@@ -445,6 +500,14 @@ class Analyzer:
                 else:
                     self.kill_term(st, 'ptr', l['n'])
                     c = const_val(a['r'])
+                    if c is not None and op in ('+=', '-=') and l['n'] in st.rel:
+                        r = st.rel[l['n']]
+                        d = c if op == '+=' else -c
+                        st.rel[l['n']] = (r[0], r[1] + d if r[1] > NEG else NEG, r[2] + d if r[2] < POS else POS)
+                    else:
+                        st.rel.pop(l['n'], None)
+                    for k in [k for k, v in st.rel.items() if v[0] == l['n']]:
+                        del st.rel[k]
                     if c is not None and l['n'] in st.ptr and op in ('+=', '-='):
                         st.ptr[l['n']] = _add(st.ptr[l['n']], -(c if op == '+=' else -c))
                     else:
@@ -493,6 +556,11 @@ class Analyzer:
             ty = self.u.ty(t.get('ty0', t['ty']))
             if ty['c'] == 'ptr':
                 self.kill_term(st, 'ptr', t['n'])
+                if t['n'] in st.rel:
+                    r = st.rel[t['n']]
+                    st.rel[t['n']] = (r[0], r[1] + ev.delta if r[1] > NEG else NEG, r[2] + ev.delta if r[2] < POS else POS)
+                for k in [k for k, v in st.rel.items() if v[0] == t['n']]:
+                    del st.rel[k]
                 if t['n'] in st.ptr:
                     st.ptr[t['n']] = _add(st.ptr[t['n']], -ev.delta)
             elif ty['c'] == 'int':
@@ -772,6 +840,31 @@ class Analyzer:
             return st if ok else None
         # p ? q
         if a[0] == 'p' and b[0] == 'p':
+            ra, rb = self.rel_of(a[1], st), self.rel_of(b[1], st)
+            if ra is not None and rb is not None and ra[0] == rb[0] and a[1][2] == 0 and a[1][1] in st.rel or \
+                    (ra is not None and rb is not None and ra[0] == rb[0] and a[1][2] == 0 and ra[0] == b[1][1]):
+                # both sides are offsets from the same root: compare the offsets
+                name = a[1][1]
+                if name in st.rel and rb[1] == rb[2]:
+                    root, lo, hi = st.rel[name]
+                    cst = rb[1]
+                    if op == '<':
+                        hi = min(hi, cst - 1)
+                    elif op == '<=':
+                        hi = min(hi, cst)
+                    elif op == '==':
+                        lo, hi = max(lo, cst), min(hi, cst)
+                    elif op == '!=':
+                        if lo == hi == cst:
+                            return None
+                        if hi == cst:
+                            hi = cst - 1
+                        elif lo == cst:
+                            lo = cst + 1
+                    if lo > hi:
+                        return None
+                    st.rel[name] = (root, lo, hi)
+                    return st
             aq = self.avail_of(b[1], st)
             ap = self.avail_of(a[1], st)
             if op == '<' and aq is not None and aq[0] > NEG:
@@ -892,8 +985,13 @@ class Analyzer:
                     if v != TOP:
                         out[k] = v
             return out
+        rel = {}
+        for k, v in new.rel.items():
+            if k in old.rel and old.rel[k][0] == v[0]:
+                iv = w_iv((old.rel[k][1], old.rel[k][2]), (v[1], v[2]))
+                rel[k] = (v[0], iv[0], iv[1])
         return St(w_map(old.buf, new.buf), new.len, w_map(old.off, new.off), w_map(old.ptr, new.ptr),
-                  w_map(old.int, new.int), new.acc)
+                  w_map(old.int, new.int), new.acc, rel)
 
     # ---- driver ----------------------------------------------------------------------------------------------
     def run(self):
